@@ -534,16 +534,13 @@ func ruleW3(c *an.Ctx) {
 			ok, w := an.Query{Fn: fn, After: st, Target: an.IsReturn,
 				Barrier: func(in ssa.Instruction) bool { _, ok := isRemoveCall(in); return ok },
 				BarrierEdge: func(from, to *ssa.BasicBlock) bool {
-					cnd, t, ok := an.EdgeCond(from, to)
-					if !ok {
+					return an.EdgeHolds(from, to, func(r an.Rel) bool {
+						// td == "" : nothing to remove; loop over zero chunks
+						if r.Op == token.EQL && an.IsStringConst(r.Y, "") {
+							return true
+						}
 						return false
-					}
-					r := an.Normalize(cnd, t)
-					// td == "" : nothing to remove; loop over zero chunks
-					if r.Op == token.EQL && an.IsStringConst(r.Y, "") {
-						return true
-					}
-					return false
+					})
 				}}.Find(), 0
 			_ = w
 			if ph.flag == "Chunks" {
